@@ -302,3 +302,75 @@ Proof.
     destruct HX as [-> | [-> | (n & X' & -> & _ & Hz)]]; [discriminate EX|discriminate EX|].
     constructor; [discriminate|exact Hz].
 Qed.
+
+(* ---- the spec machine on  dot-dots ++ names ++ tail -------------------------------------------------- *)
+Lemma fold_names : forall R N out t, allnm N ->
+  fold_left (norm_step R) N (out, t) = (rev N ++ out, match N with [] => t | _ => false end).
+Proof.
+  induction N as [|n N IH]; intros out t HN; [reflexivity|].
+  inversion HN; subst. pose proof (nm_proper n H1) as P. cbn [fold_left].
+  assert (S1 : norm_step R (out, t) n = (n :: out, false)).
+  { unfold norm_step. rewrite (proper_not_empty n P), (proper_not_dot n P), (proper_not_dotdot n P). reflexivity. }
+  rewrite S1, IH by assumption. cbn [rev]. rewrite <- app_assoc. cbn [app].
+  destruct N; reflexivity.
+Qed.
+
+Lemma fold_D_true : forall D t, allDD D -> fst (fold_left (norm_step true) D ([], t)) = [].
+Proof.
+  induction D as [|d D IH]; intros t HD; [reflexivity|]. inversion HD; subst. cbn [fold_left].
+  change (norm_step true ([], t) DD) with (@nil elem, true). apply IH. assumption.
+Qed.
+
+Lemma fold_D_false : forall D out t, allDD D -> forallb is_dotdot out = true ->
+  fst (fold_left (norm_step false) D (out, t)) = rev D ++ out.
+Proof.
+  induction D as [|d D IH]; intros out t HD Ho; [reflexivity|]. inversion HD; subst. cbn [fold_left].
+  assert (S1 : norm_step false (out, t) DD = (DD :: out, false)).
+  { unfold norm_step. cbn [is_empty DD is_dot is_dotdot bytes_eqb]. destruct out as [|x out']; [reflexivity|].
+    cbn in Ho. apply andb_true_iff in Ho as [Hx _]. rewrite Hx. reflexivity. }
+  rewrite S1, IH; [|assumption|cbn; exact Ho]. cbn [rev]. rewrite <- app_assoc. reflexivity.
+Qed.
+
+Lemma allDD_rev : forall D, allDD D -> rev D = D.
+Proof.
+  intros D HD. assert (E : D = repeat DD (length D)).
+  { induction D as [|d D IH]; [reflexivity|]. inversion HD; subst. cbn. f_equal. apply IH. assumption. }
+  rewrite E. apply rev_repeat.
+Qed.
+
+Lemma allDD_forallb : forall D, allDD D -> forallb is_dotdot D = true.
+Proof. induction D as [|d D IH]; intro H; [reflexivity|]. inversion H; subst. cbn. apply IH. assumption. Qed.
+
+Lemma machine_dn : forall R D N tl, allDD D -> allnm N -> (tl = [] \/ tl = [[]]) ->
+  normal_elems R (D ++ N ++ tl) =
+  match N with
+  | [] => if R then [] else match D with [] => [[DOT]] | _ => D end
+  | _ => (if R then [] else D) ++ N ++ tl
+  end.
+Proof.
+  intros R D N tl HD HN Htl. unfold normal_elems. rewrite !fold_left_app.
+  destruct (fold_left (norm_step R) D ([], false)) as [oD tD] eqn:ED.
+  assert (EoD : oD = if R then [] else rev D).
+  { destruct R.
+    - pose proof (fold_D_true D false HD) as Q. rewrite ED in Q. exact Q.
+    - pose proof (fold_D_false D [] false HD eq_refl) as Q. rewrite ED, app_nil_r in Q. exact Q. }
+  rewrite fold_names by exact HN.
+  destruct N as [|n0 N0].
+  - cbn [rev app]. assert (Eo : fst (fold_left (norm_step R) tl (oD, tD)) = oD).
+    { destruct Htl as [-> | ->]; reflexivity. }
+    destruct (fold_left (norm_step R) tl (oD, tD)) as [o2 t2]. cbn [fst] in Eo. subst o2.
+    unfold norm_finish. rewrite EoD. destruct R; [reflexivity|].
+    destruct D as [|d D']; [reflexivity|]. inversion HD; subst.
+    rewrite (allDD_rev (DD :: D') HD). change (is_dotdot DD) with true. cbv iota. apply (allDD_rev (DD :: D') HD).
+  - destruct (exists_last (l := n0 :: N0) ltac:(discriminate)) as (N' & n & EN). rewrite EN in *.
+    assert (Hn : nm n) by (apply Forall_app in HN as [_ A]; inversion A; assumption).
+    pose proof (nm_proper n Hn) as P.
+    assert (E2 : fold_left (norm_step R) tl (rev (N' ++ [n]) ++ oD, false) =
+                 (rev (N' ++ [n]) ++ oD, match tl with [] => false | _ => true end)).
+    { destruct Htl as [-> | ->]; reflexivity. }
+    destruct (N' ++ [n]) eqn:E0; [destruct N'; discriminate|]. rewrite <- E0 in *. rewrite E2.
+    unfold norm_finish. rewrite rev_app_distr. cbn [rev app]. rewrite (proper_not_dotdot n P).
+    assert (Erev : rev (rev N' ++ oD) = (if R then [] else D) ++ N').
+    { rewrite rev_app_distr, rev_involutive, EoD. destruct R; [reflexivity|]. rewrite rev_involutive. reflexivity. }
+    rewrite Erev. destruct Htl as [-> | ->]; rewrite <- ?app_assoc; rewrite ?app_nil_r; reflexivity.
+Qed.
